@@ -147,13 +147,29 @@ def annulus_chord(o, d, rin, rout, z0, z1):
     return np.maximum(cut(a1, a2) - cut(b1, b2), 0.0)
 
 
+def _count_intervals(nint, own, pos):
+    """nint[ray, c] += number of maximal runs of consecutive positive-length segments owned by cell c
+    (own: (N,S) cell index or -1; zero-length segments neither start nor interrupt a run)."""
+    N, S = own.shape
+    last = np.full(N, -2)
+    ar = np.arange(N)
+    for s in range(S):
+        cs = own[:, s]
+        live = pos[:, s]
+        start = live & (cs >= 0) & (cs != last)
+        if start.any():
+            np.add.at(nint, (ar[start], cs[start]), 1)
+        last = np.where(live, cs, last)
+
+
 def cyl_reference(o, d, shape, rmin, rmax, height, period, step, delta=DELTA):
     """(R, phi, Z) grid: shape = (nr, nphi, nz), r in [rmin, rmax], z in [0, height], phi periodic with
     `period` degrees (nphi cells per period; nphi == 1 means axisymmetric).
 
     Returns dict with L_lo, L_hi (N, C) in C order (ir, iphi, iz); chord_lo, chord_hi; dt; skippable;
     nint (N, C) number of disjoint intervals of each cell on the ray (a cell of a periodic grid is the union
-    of its 360/period images, and an annular cell can be entered twice), kmax = nint.max(axis=1);
+    of its 360/period images, and an annular cell can be entered twice; for a ray lying in a cell boundary
+    every candidate owner cell is counted), kmax = nint.max(axis=1);
     pieces (number of passes through the primitive)."""
     o = np.asarray(o, float).reshape(-1, 3)
     d = np.asarray(d, float).reshape(-1, 3)
@@ -282,6 +298,7 @@ def cyl_reference(o, d, shape, rmin, rmax, height, period, step, delta=DELTA):
                     continue
                 cellidx = (ira * nphi + ipb) * nz + izc
                 np.add.at(L_hi, (rows[m], cellidx[m]), seg[m])
+                _count_intervals(nint, np.where(m, cellidx, -1), pos)
     cell0 = (ir0 * nphi + ip0) * nz + iz0
     m = in_lo & pos & uniq & ~seg_skip
     np.add.at(L_lo, (rows[m], cell0[m]), seg[m])
@@ -289,16 +306,6 @@ def cyl_reference(o, d, shape, rmin, rmax, height, period, step, delta=DELTA):
     m = in_lo & pos & uniq
     np.add.at(L_geo, (rows[m], cell0[m]), seg[m])
     ambig = (L_hi - L_geo).max(axis=1)
-    # interval count: a new interval of cell c starts when the owner changes to c
-    own = np.where(in_hi & pos, cell0, -1)
-    last = np.full(N, -2)
-    for s in range(S):
-        cs = own[:, s]
-        live = pos[:, s]
-        start = live & (cs >= 0) & (cs != last)
-        if start.any():
-            np.add.at(nint, (np.arange(N)[start], cs[start]), 1)
-        last = np.where(live, cs, last)
     chord_ev = np.where(inside_run, seg, 0.0).sum(axis=1)      # event-sorted total (cross-checked by the caller)
     skip_len = np.where(pskip, plen, 0.0).sum(axis=1)
     chord_hi = annulus_chord(o, d, rin_p - delta, rout_p + delta, -delta, h_p + delta)
